@@ -13,16 +13,17 @@ Reading guide (clauses of the property → theorems):
   `lexer_reads_back`, `walk_keeps_every_item`, `walkFn_faithful`
 * "comments and whitespace anywhere" → `skips_whitespace`, `skips_line_comment`,
   `skips_block_comment`, `skips_concat`
-* "rejected with an error … never crashes" → `parse_total` (model; the Go side is the tie)
+* "rejected with an error … never crashes" → no theorem (tie only, see the note below `stdK`)
 * "applies documented defaults" → `defaults_applied` (+ `_scalar`, `_any_depth`),
   `default_routing_fallback_applied`, `default_http_method_applied`
 * "rejects unknown sections and keys, missing required ones" → `unknown_section_rejected`,
-  `missing_required_section_rejected`, `unknown_key_rejected`, `missing_required_key_rejected`
-* "rule programs beyond the supported size" → `oversize_rejected`, `compiled_within_limit`
+  `missing_required_section_rejected`, `unknown_and_missing_keys_rejected` (config.New level),
+  `unknown_key_rejected_one_struct`, `missing_required_key_rejected_one_struct`; `written_list_replaces_default`
+* "rule programs beyond the supported size" → `oversize_domain_set_rejected`, `compiled_within_limit`
 * "merges included files deterministically (the including file first, then each included file in
   listed order)" → `merge_order`, `merge_into_appends`
 * "rejecting circular includes" → `circular_include_rejected`, `include_of_visited_rejected`,
-  `merge_no_file_twice`, `merge_terminates`
+  `merge_no_path_twice`, `merge_terminates_partial`
 * "never reading a file that is not a .dae file or that lies outside the entry configuration
   directory" → `merge_reads_confined`, `confined_means_under`
 -/
@@ -35,14 +36,10 @@ def stdK : Classes :=
 
 /-! ## 1. Text ↔ tokens ↔ tree -/
 
-/-- **Totality (model).** Every text is rejected or parsed into sections; there is no third
-outcome.  (Totality of the Go code is what the correspondence streams check.) -/
-theorem parse_total (K : Classes) (text : List Char) :
-    parse K text = none ∨ ∃ ss, parse K text = some ss := by
-  cases parse K text <;> simp
-
-example : parse stdK [] = some [] := by
-  simp [parse, lex, parseToks, parseProg, walkProg]
+/-! "Parsing never crashes, whatever the input" has NO theorem here: in Lean every function is total,
+so a statement about the model would be vacuous.  That clause is established only by the
+correspondence streams (grammar texts, near misses, bytes, long/deep stress inputs), which run the
+real `Parse` under `recover` and in a child process. -/
 
 /-- **One-to-one, in order (token level).** The token-level parser accepts a token sequence with
 tree `p` exactly when `p` spells that sequence token for token, in order: section names, keys,
@@ -166,9 +163,13 @@ example : Skips stdK ([' '] ++ ('#' :: ([' ', 'x', '{', '"', '\''] ++ ['\n'])) +
   have h3 : Skips stdK ['\t'] := skips_ws (by decide)
   exact skips_append (skips_append h1 h2) h3
 
-/-- **The Walker keeps every item, in order**: one AST item per written item. -/
-theorem walk_keeps_every_item (items : Items) (as : List AItem) (h : walkItems items = some as) :
-    as.length = items.heads.length := walkItems_heads items as h
+/-- **The Walker keeps every item, in order, under its own name**: the heads of the AST items (first
+function name of a rule, key of a declaration, value of a literal, name of a section) are the heads
+of the written items, one for one.  (`keysOK`: declaration keys are non-empty, as every ID token is.)
+Scope of "one-to-one" at Walker level: the AST forgets the quoting style of a literal and joins a
+declaration's literal list with `,` (`b: c, d` and `b: 'c,d'` give the same `Param`); nothing else. -/
+theorem walk_keeps_every_item (items : Items) (as : List AItem) (h : walkItems items = some as)
+    (hk : items.keysOK) : as.map AItem.head = items.heads := walkItems_heads_eq items as h hk
 
 /-- **A function is read faithfully** (name, negation, every parameter's key and raw value, in
 order), and the only thing the Walker refuses is an empty parameter list. -/
@@ -221,8 +222,11 @@ theorem include_of_visited_rejected (K : Classes) (fs : FS) (dir : List Char) (n
     dfsChildren K fs dir (n + 1) st acc (c :: cs) = (st, .error .circular) := by
   rw [dfsChildren, circular_include_rejected K fs dir n st c h]
 
-/-- **No file twice.** Whatever the include graph, the list of merged files has no duplicates. -/
-theorem merge_no_file_twice (K : Classes) (fs : FS) (fuel : Nat) (entry : List Char) :
+/-- **No path twice.** Whatever the include graph, the list of merged paths has no duplicates.  This is
+about path STRINGS, as in the Go code (`entryToSectionMap` is keyed by the raw string): one file
+written under two spellings (`'/e/./a.dae'` and `'/e/a.dae'`, absolute includes are not cleaned) is
+merged twice; a cycle through such spellings is still rejected, one round later. -/
+theorem merge_no_path_twice (K : Classes) (fs : FS) (fuel : Nat) (entry : List Char) :
     (merge K fs fuel entry).1.visited.Nodup :=
   dfsMerge_visited_nodup K fs _ fuel ⟨[], []⟩ entry List.nodup_nil
 
@@ -250,21 +254,20 @@ example : ensureInSubDir ['/', 'e', '/', 's', '/', 'a'] ['/', 'e'] = true ∧
     ensureInSubDir ['/', 'e', '/', '.', '.', '/', 'b'] ['/', 'e'] = false ∧
     ensureInSubDir ['/', 'e', 'x', '/', 'b'] ['/', 'e'] = false := by decide
 
-/-- **Termination.** On a file system with finitely many files (`files` lists every path that can
-be stat-ed), the merge never runs out of fuel when given at least `|files| + 1` levels: every
-nested `dfsMerge` call has added a new, existing file to the duplicate-free visited list, so the
-nesting depth is bounded by the number of files (pigeonhole).  The driver runs with `|files| + 2`. -/
-theorem merge_terminates (K : Classes) (fs : FS) (files : List (List Char)) (entry : List Char) (fuel : Nat)
+/-- **Termination — partial.** If the set of path STRINGS that can be stat-ed is finite (`files` lists
+them all), the merge never runs out of fuel when given at least `|files| + 1` levels: every nested
+`dfsMerge` call has added a new, existing path to the duplicate-free visited list, so the nesting
+depth is bounded by the number of paths (pigeonhole).  The driver runs with `|files| + 2` on the
+association-list file systems of the harness, for which the hypothesis holds.
+What is missing for "all include graphs over a directory tree": on a real file system one file has
+infinitely many spellings (`/e/a.dae`, `/e/./a.dae`, `/e/x/../a.dae` …), so `hfiles` cannot be met;
+the real argument (only finitely many spellings are WRITTEN in finitely many files, relative ones
+are cleaned by `Join`) is not proved. -/
+theorem merge_terminates_partial (K : Classes) (fs : FS) (files : List (List Char)) (entry : List Char) (fuel : Nat)
     (hfiles : ∀ p, (fs.stat p).isSome = true → p ∈ files) (hfuel : files.length + 1 ≤ fuel) :
     (merge K fs fuel entry).2 ≠ .error .fuel :=
   dfsMerge_not_fuel K fs (dirOf entry) files hfiles fuel ⟨[], []⟩ entry
     ⟨List.nodup_nil, by simp⟩ (by simpa using hfuel)
-
-/-- the statement as first written in the design (fuel `|files| + 2`) -/
-theorem merge_terminates_full (K : Classes) (fs : FS) (files : List (List Char)) (entry : List Char)
-    (hfiles : ∀ p, (fs.stat p).isSome → p ∈ files) :
-    (merge K fs (files.length + 2) entry).2 ≠ .error .fuel :=
-  merge_terminates K fs files entry _ (fun p hp => hfiles p hp) (by omega)
 
 /-- non-vacuity: a two-file system whose files include each other; the merge stops with the
 circular-include error, not by exhausting its fuel -/
@@ -274,7 +277,7 @@ example :
                      glob := fun _ => some [] }
     (merge stdK fs 3 ['a', '.', 'd', 'a', 'e']).2 ≠ .error .fuel := by
   intro fs
-  exact merge_terminates stdK fs [['a', '.', 'd', 'a', 'e'], ['b', '.', 'd', 'a', 'e']] _ 3
+  exact merge_terminates_partial stdK fs [['a', '.', 'd', 'a', 'e'], ['b', '.', 'd', 'a', 'e']] _ 3
     (by intro p hp; simp only [fs] at hp; split at hp <;> simp_all) (by simp)
 
 /-! ## 3. Typed configuration -/
@@ -291,22 +294,46 @@ theorem missing_required_section_rejected (S : Schema) (dec : Dec) (fuel : Nat) 
     configNew S dec fuel ss = .error (.requiredSection, []) :=
   configNew_missing_required S dec fuel ss h
 
-/-- **Unknown keys** (and key-less text, and rules where no rules belong) are an error: if
-`ParamParser` succeeds, every item was admissible for the struct. -/
-theorem unknown_key_rejected (S : Schema) (dec : Dec) (n sid : Nat) (path : Path) (items : List AItem)
+/-- **Unknown keys / key-less text / misplaced rules / missing required keys — at `config.New` level**
+for the top-level struct sections: if `config.New` succeeds, every item of the section it decoded
+for `global` / `routing` / `dns` is admissible and every `required` key is written.  (The section
+decoded for a name is the LAST one so named — `config.New` documents that it assumes `Merger` has
+merged equal names; `merge` does, see `sectionsToMap`.) -/
+theorem unknown_and_missing_keys_rejected (S : Schema) (dec : Dec) (fuel : Nat) (ss : List ASection) (st' : Store)
+    (h : configNew S dec fuel ss = .ok st') (sp : SectionSpec) (hsp : sp ∈ S.specs) (sid : Nat)
+    (hkind : sp.kind = .struct sid) :
+    ∃ sd, S.structs[sid]? = some sd ∧
+      (∀ it ∈ itemsOf ss sp.name, itemAdmissible sd it) ∧
+      (∀ f ∈ sd.fields, f.required = true → ∃ it ∈ itemsOf ss sp.name, it.key? = some f.key) :=
+  configNew_ok_sections S dec fuel ss st' h sp hsp sid hkind
+
+/-- the same for ONE run of `ParamParser` (any struct at any depth — a nested section, a group
+element): if it succeeds, every item was admissible for that struct … -/
+theorem unknown_key_rejected_one_struct (S : Schema) (dec : Dec) (n sid : Nat) (path : Path) (items : List AItem)
     (st st' : Store) (h : paramParser S dec (n + 1) sid path items st = .ok st') :
     ∃ sd, S.structs[sid]? = some sd ∧ ∀ it ∈ items, itemAdmissible sd it := by
   obtain ⟨sd, h1, h2, _⟩ := paramParser_ok S dec n sid path items st st' h
   exact ⟨sd, h1, h2⟩
 
-/-- **Missing required keys** are an error: if `ParamParser` succeeds, every `required` field's
-key is written in the section. -/
-theorem missing_required_key_rejected (S : Schema) (dec : Dec) (n sid : Nat) (path : Path)
+/-- … and every `required` field's key is written among its items. -/
+theorem missing_required_key_rejected_one_struct (S : Schema) (dec : Dec) (n sid : Nat) (path : Path)
     (items : List AItem) (st st' : Store) (h : paramParser S dec (n + 1) sid path items st = .ok st') :
     ∃ sd, S.structs[sid]? = some sd ∧
       ∀ f ∈ sd.fields, f.required = true → ∃ it ∈ items, it.key? = some f.key := by
   obtain ⟨sd, h1, _, h3⟩ := paramParser_ok S dec n sid path items st st' h
   exact ⟨sd, h1, h3⟩
+
+/-- **A written list replaces the default (958eeab).** The first section-form occurrence of a
+string-list key (`tcp_check_url { a b }`) starts from the empty list, not from the pre-filled
+`default:` value: afterwards the field holds exactly the written items, in order. -/
+theorem written_list_replaces_default (S : Schema) (dec : Dec) (n : Nat) (sd : StructDef) (path : Path)
+    (name : List Char) (items rest : List AItem) (st : Store) (set : List (List Char)) (f : Field)
+    (hf : findField sd.fields name = some f) (hk : f.kind = .strList) (hns : set.contains name = false)
+    (st1 : Store) (h1 : stringListParser (sub path name) items (st.put (sub path name) (.strs [])) = .ok st1) :
+    paramItems S dec (n + 1) sd path (.sec name items :: rest) st set
+        = paramItems S dec (n + 1) sd path rest st1 (name :: set) ∧
+      ∃ vs : List (List Char), items.map AItem.paramStr = vs.map some ∧ getStrs st1 (sub path name) = vs :=
+  sectionForm_list_replaces_default S dec n sd path name items rest st set f hf hk hns st1 h1
 
 /-- **Documented defaults are applied — full strength, every field kind.** In the typed
 configuration returned by `config.New`, every field of a top-level struct section (`global`,
@@ -405,9 +432,13 @@ example :
   subst hc
   exact hget
 
-/-- **Oversized rule programs** are a build error, never an out-of-range access: a program that
-lowers to a domain set at a match-set index ≥ the table size is rejected. -/
-theorem oversize_rejected (emit : List Char → Option Emit) (maxLen : Nat) (rules : List (List Fn × Fn))
+/-- **Oversized rule programs, the part that is decided in user space**: a program that lowers to a
+DOMAIN SET at a match-set index ≥ the table size is a build error, never an out-of-range access.
+(This is weaker than "more than `MaxMatchSetLen` match sets is an error": a longer program whose
+late sets are not domain sets is accepted by `BuildUserspace` / the DNS `Build` — correctly for DNS,
+where only domain sets index the fixed-size bitmap; for traffic routing the refusal happens in
+`BuildKernspace` by the kernel map update, outside this check.) -/
+theorem oversize_domain_set_rejected (emit : List Char → Option Emit) (maxLen : Nat) (rules : List (List Fn × Fn))
     (k : Nat) (ds : List Nat) (hl : lowerRules emit rules 0 = .ok (k, ds)) (hbig : ∃ i ∈ ds, maxLen ≤ i) :
     compileSize emit maxLen rules = .error .oversize :=
   compileSize_oversize emit maxLen rules k ds hl hbig
